@@ -331,8 +331,22 @@ func convert(values map[string]any, convPairs map[string]streamConvertPair, isSt
 	return nil
 }
 
+// nilChunk stands, in a checkpoint written by a streaming run, for a stream whose concatenation is
+// the nil value of an interface chunk type (a node of output type any that answered nil). A plain nil
+// there means a stream without chunks; the two are told apart when the stream is rebuilt.
+type nilChunk struct{}
+
+func init() {
+	_ = serialization.GenericRegister[nilChunk]("_eino_nil_chunk")
+}
+
 func restore(values map[string]any, convPairs map[string]streamConvertPair, isStream bool) error {
 	if !isStream {
+		for key, v := range values {
+			if _, ok := v.(nilChunk); ok {
+				values[key] = nil // resumed without streams: the value itself
+			}
+		}
 		return nil
 	}
 	for key, v := range values {
